@@ -329,6 +329,10 @@ func (o *objectGoArrayReflect) sortGet(i int) Value {
 }
 
 func (o *objectGoArrayReflect) swap(i int, j int) {
+	if l := o.fieldsValue.Len(); i >= l || j >= l {
+		// the comparator has shrunk the slice while it is being sorted
+		return
+	}
 	vi := o.fieldsValue.Index(i)
 	vj := o.fieldsValue.Index(j)
 	tmp := reflect.New(o.fieldsValue.Type().Elem()).Elem()
